@@ -6,6 +6,7 @@
 #include <sys/mman.h>
 #include <unistd.h>
 
+int g_alloc_skew_phase = 0;
 void verif_paint_obj(void *p, size_t n);   /* common.c */
 void verif_unpoison(void *p, size_t n);
 
@@ -151,6 +152,10 @@ static void *lib_alloc(size_t size, size_t align, int zero)
     memset(d, CANARY, DATA_PAGES * PAGE);
     p = d + DATA_PAGES * PAGE - size;
     p = (uint8_t *)((uintptr_t)p & ~(uintptr_t)(align - 1));
+    /* malloc promises 16-byte alignment, not more: consecutive requests alternate between addresses that
+     * are 0 and 16 modulo 32 (which one comes first is g_alloc_skew_phase), so code that rounds a block up
+     * to a 32-byte boundary itself is run with both amounts of leading slack */
+    if (align <= 16 && ((g_alloc_calls + g_alloc_skew_phase) & 1) != (int)(((uintptr_t)p >> 4) & 1)) p -= 16;
     /* blocks the library did not ask to have cleared hold the paint pattern of this run
      * (0xA5 without --paint) and are poisoned under MemorySanitizer */
     if (zero) memset(p, 0, size); else verif_paint_obj(p, size);
